@@ -186,7 +186,7 @@ def gen_groups(ctx):
         return g
 
     bl = bodies(ctx)
-    short_budget = ctx.scale(46, 52)     # exhaustive <=4-frame splits for bodies up to this length
+    short_budget = ctx.scale(46, 56)     # exhaustive <=4-frame splits for bodies up to this length
     for body, btag in bl:
         n = len(body)
         ex = 4 if n <= short_budget else (3 if n <= ctx.scale(120, 300) else 0)
